@@ -229,6 +229,55 @@ pub fn diagram(board: &Board, side: Side, move_no: u128) -> String {
     s
 }
 
+/// The same position in another accepted spelling, as other tools write it: the engine's reader
+/// takes every character that is not a piece letter as an empty square and knows `w`/`b` as well as
+/// `g`/`s` for the side.  The spelling is a pure function of the text (no random draw), so a replay
+/// file that holds the canonical text reproduces it.  Half of all texts stay as they are.
+pub fn respell(text: &str) -> String {
+    let mut f = crate::rng::Fp::new();
+    f.str(text);
+    let mut h = f.finish();
+    let variant = h % 4;
+    if variant < 2 {
+        return text.to_string();
+    }
+    h /= 4;
+    let alias = variant == 2 || h & 1 == 1;
+    h /= 2;
+    const FILL: [char; 10] = [' ', '.', 'x', 'X', '-', '~', 'A', 'Z', '0', 'Q'];
+    let mut out = String::new();
+    for (li, line) in text.lines().enumerate() {
+        let cs: Vec<char> = line.chars().collect();
+        if li == 0 {
+            let mut l: String = line.to_string();
+            if alias {
+                if l.ends_with('g') { l.pop(); l.push('w'); } else if l.ends_with('s') { l.pop(); l.push('b'); }
+            }
+            out += &l;
+        } else if let Some(bar) = cs.iter().position(|c| *c == '|') {
+            let mut cs = cs.clone();
+            let rank = cs.first().and_then(|c| c.to_digit(10)).unwrap_or(0) as u8;
+            for file in 0..8usize {
+                let i = bar + 2 + 2 * file;
+                if i < cs.len() && (cs[i] == ' ' || cs[i] == 'x') {
+                    let trap = cs[i] == 'x' && (rank == 3 || rank == 6) && (file == 2 || file == 5);
+                    cs[i] = if variant == 2 {
+                        if trap { 'X' } else { '.' }
+                    } else {
+                        h = h.wrapping_mul(6364136223846793005).wrapping_add(1442695040888963407);
+                        FILL[((h >> 33) % FILL.len() as u64) as usize]
+                    };
+                }
+            }
+            out += &cs.into_iter().collect::<String>();
+        } else {
+            out += line;
+        }
+        out.push('\n');
+    }
+    out
+}
+
 /// Strict parser of exactly the format `diagram` writes (used for scenario and replay files).
 pub fn parse_diagram(text: &str) -> Option<(Board, Side, u128)> {
     let lines: Vec<&str> = text.lines().collect();
